@@ -18,7 +18,7 @@ for pid in ALL:
             "replay_cmd_template": "/venv/bin/python /verif/replay.py {path}",
             "engine": "pyvc",
             "level_claimed": {"category": m.LEVEL, "text": m.LEVEL_TEXT,
-                              "design_ref": "DESIGN.md section 5, " + pid},
+                              "design_ref": "DESIGN.md Part A, A.4 row %s (as built); Part B section 5, %s (plan)" % (pid, pid)},
             "level_note": m.LEVEL_NOTE,
             "technique": TECH + getattr(m, "TECH_EXTRA", ""),
         })
